@@ -108,7 +108,7 @@ def setup(ctx):
 
 def workload(ctx):
     rng = ctx.rng(1)
-    for i in range(ctx.n(1500, 20000)):
+    for i in range(ctx.n(1500, 40000)):
         c, cs = gen.cell(rng, gen.CELL_STRATA[i % len(gen.CELL_STRATA)])
         U, rs, _ = gen.rotation(rng, gen.ROT_STRATA[(i // 7) % len(gen.ROT_STRATA)])
         kind = i % 10
